@@ -60,6 +60,7 @@ type WCase struct {
 	FailEp    int      `json:"failep"`
 	Partial   bool     `json:"partial"`   // the failing call accepts half of its bytes
 	ErrKind   string   `json:"errkind"`   // what the destination's error looks like (errKinds)
+	Bulk      int      `json:"bulk"`      // instead of ops: this many one-shot streams of sizes at the output-piece boundaries (see execBulk)
 	Soak      int      `json:"soak"`      // before the ops: this many streams that end in a destination failure, each followed by Reset
 	SoakPat   int      `json:"soakpat"`   // what a failed stream looks like (0..3) ...
 	SoakAt    int      `json:"soakat"`    // ... and at which destination call it fails
@@ -398,6 +399,10 @@ func execWriterCase(c *WCase, arch int, emit func(interface{})) {
 	}
 	emit(WEvent{Ev: "Begin", Case: c.ID, Kind: kind, Impl: c.Set.Impl, Level: c.Set.Level,
 		Window: c.Set.Window, Accel: c.Set.accel(), Period: period, Arch: arch})
+	if c.Bulk > 0 {
+		execBulk(c, emit)
+		return
+	}
 	if c.Mech && c.Set.Impl == "fastgo" {
 		// mechanism events of the level 1/2 compressor, interleaved with the API events
 		fgflate.VerifSetCompressorTrace(func(ev string, a, b, cc, d int) {
@@ -504,4 +509,93 @@ func badHeader(i int) *GzHeader {
 		return &GzHeader{Name: "ok", Comment: "nul at the end\x00", Extra: []byte{1, 2, 3}, OS: 255}
 	}
 	return &GzHeader{Name: "caf\u00e9", Comment: "\u0100", OS: 255}
+}
+
+// execBulk: very many short one-shot streams (Write, Close) whose compressed size is within a
+// few bytes of a multiple of the encoder's 8 KiB output piece - the place where the token and
+// byte encoders hand a full piece to the destination and where the last bits of the stream are
+// flushed.  What can go wrong there depends on the exact bit position the stream ends at (one
+// stream in tens of thousands), so the streams are not logged one by one: each is decoded with
+// compress/flate and compared in the worker, and one summary event is validated (ret = number of
+// streams that panicked, were refused or did not round-trip; err = the first of them).
+func execBulk(c *WCase, emit func(interface{})) {
+	ev := WEvent{Ev: "Bulk", Case: c.ID, N: c.Bulk, Err: "nil"}
+	set := c.Set
+	var dict []byte
+	// (the Writer is reused through Reset for fifteen streams out of sixteen: allocating its
+	// buffers dominates the cost of a short stream)
+	var u wUnderTest
+	var buf bytes.Buffer
+	uses := 0
+	one := func(data []byte) (out []byte, pan string, err error) {
+		defer func() {
+			if x := recover(); x != nil {
+				pan = panicString(x)
+				uses = 0 // a Writer that panicked is not used again
+			}
+		}()
+		buf.Reset()
+		if uses%16 == 0 {
+			var e error
+			if u, e = newWriter(set, &buf, dict); e != nil {
+				return nil, "", e
+			}
+		} else {
+			u.reset(&buf)
+		}
+		uses++
+		if _, e := u.w.Write(data); e != nil {
+			uses = 0
+			return nil, "", e
+		}
+		if e := u.w.Close(); e != nil {
+			uses = 0
+			return nil, "", e
+		}
+		return append([]byte{}, buf.Bytes()...), "", nil
+	}
+	// the sizes whose compressed form ends within a few bytes of a piece boundary (found by a pilot)
+	var sizes []int
+	for _, centre := range []int{8192, 16384} {
+		for n := centre - 400; n < centre+40; n++ {
+			out, pan, err := one(DataSpec{Class: c.Data.Class, Seed: c.Data.Seed, Len: n}.Bytes())
+			if pan != "" || err != nil {
+				continue
+			}
+			if d := len(out) % 8192; d >= 8192-14 || d <= 10 {
+				sizes = append(sizes, n)
+			}
+		}
+	}
+	if len(sizes) == 0 {
+		sizes = []int{8150, 8155, 8160}
+	}
+	ev.Calls = len(sizes)
+	for t := 0; t < c.Bulk; t++ {
+		n := sizes[t%len(sizes)]
+		data := DataSpec{Class: c.Data.Class, Seed: c.Data.Seed + int64(t)*7919, Len: n}.Bytes()
+		out, pan, err := one(data)
+		bad := ""
+		switch {
+		case pan != "":
+			bad = "panic: " + pan
+			if ev.Panic == "" {
+				ev.Panic = pan
+			}
+		case err != nil:
+			bad = "error: " + err.Error()
+		default:
+			got, derr := io.ReadAll(stdflate.NewReader(bytes.NewReader(out)))
+			if derr != nil || !bytes.Equal(got, data) {
+				bad = fmt.Sprintf("no round trip (decoder: %v, %d of %d bytes)", derr, len(got), len(data))
+			}
+		}
+		if bad != "" {
+			ev.Ret++
+			if ev.Err == "nil" {
+				ev.Err = fmt.Sprintf("stream %d (len %d, seed %d): %s", t, n, c.Data.Seed+int64(t)*7919, bad)
+			}
+		}
+	}
+	emit(ev)
 }
